@@ -64,7 +64,8 @@ Theorem C07_block_coef_error : forall cf qtbl samples,
   cfg_ok cf -> length qtbl = 64%nat -> length samples = 64%nat ->
   (forall q, In q qtbl -> 1 <= q <= 65535) ->
   Forall (fun s => 0 <= s <= maxsample cf) samples ->
-  exists coefs, forward_block cf qtbl samples = Some coefs /    Forall2 (fun qf c => 2 * Z.abs (c * (8 * fst qf) - snd qf) <= 8 * fst qf)
+  exists coefs, forward_block cf qtbl samples = Some coefs /\
+    Forall2 (fun qf c => 2 * Z.abs (c * (8 * fst qf) - snd qf) <= 8 * fst qf)
             (combine qtbl (fdct_islow cf (convsamp cf samples))) coefs.
 Proof. exact block_coef_error_proof. Qed.
 Print Assumptions C07_block_coef_error.
